@@ -398,6 +398,23 @@ Definition chrome_events (tasks : list (N * N)) (s : stream) : list cev :=
   map (chrome_of_record tasks) s
   ++ flat_map (fun tp => let ts := t_get (fst tp) (m_t m) in chrome_close tasks (fst tp) (ts_last ts) (ts_stack ts)) tasks.
 
+(* string argument / return value of a record (--show-args is the default): get_argspec_string with NEEDS_JSON.
+   [raw] = the bytes of the payload string (its 2-byte length field says how many); the C code treats them as
+   a C string.  arg_json = the text put between the quotes of the 'arguments' / 'retval' member,
+   arg_shown = what a JSON parser returns for it. *)
+Fixpoint cstr (s : list N) : list N :=
+  match s with [] => [] | c :: r => if c mod 256 =? 0 then [] else c :: cstr r end.
+Definition is_null_str (raw : list N) : bool :=
+  match raw with [255; 255; 255; 255] => true | _ => false end.
+Definition arg_json (entry : bool) (raw : list N) : list N :=
+  let body := if is_null_str raw then [78; 85; 76; 76]
+              else [92; 34] ++ json_escape (cstr raw) ++ [92; 34] in
+  if entry then 40 :: body ++ [41] else body.
+Definition arg_shown (entry : bool) (raw : list N) : list N :=
+  let body := if is_null_str raw then [78; 85; 76; 76]
+              else [34] ++ shown (cstr raw) ++ [34] in
+  if entry then 40 :: body ++ [41] else body.
+
 (* dump_chrome_footer: the text after the last event *)
 Definition bytes_version : list N := [34; 118; 101; 114; 115; 105; 111; 110; 34; 58; 34; 117; 102; 116; 114; 97; 99; 101; 32].
 Definition chrome_metadata_members (version date : list N) (cmdline : option (list N)) : list N :=
@@ -669,7 +686,9 @@ Record case := {
   k_dot : list (list N);
   k_mermaid : list (list N);
   k_chrome : list cev;
-  k_json_ok : bool                              (* the whole --chrome output parsed as JSON *)
+  k_json_ok : bool;                             (* the whole --chrome output parsed as JSON *)
+  k_args : list (option (list N));              (* per record: the payload string, if it has one *)
+  k_chrome_args : list (option (list N))        (* per printed event: the decoded arguments / retval member *)
 }.
 Definition k_stream (k : case) : stream :=
   map (fun r : N * bool * N * N => let '(tid, b, i, t) := r in
@@ -705,8 +724,21 @@ Definition agree_dot (k : case) : bool :=
   lines_eqb (dot_lines (graph_build 0 (k_root k) (k_tids k) (k_stream k))) (k_dot k).
 Definition agree_mermaid (k : case) : bool :=
   lines_eqb (mermaid_lines (graph_build 0 (k_root k) (k_tids k) (k_stream k))) (k_mermaid k).
+Fixpoint opts_eqb (a b : list (option (list N))) : bool :=
+  match a, b with
+  | [], [] => true
+  | None :: a', None :: b' => opts_eqb a' b'
+  | Some x :: a', Some y :: b' => bytes_eqb x y && opts_eqb a' b'
+  | _, _ => false
+  end.
+(* the i-th printed event belongs to the i-th record; the closing events at the end carry nothing *)
+Definition chrome_args (k : case) : list (option (list N)) :=
+  map (fun ra : (N * bool * N * N) * option (list N) =>
+         let '((_, b, _, _), a) := ra in option_map (arg_shown b) a) (combine (k_recs k) (k_args k))
+  ++ repeat None (length (k_chrome k) - length (k_recs k)).
 Definition agree_chrome (k : case) : bool :=
-  cevs_eqb (chrome_events (k_tasks k) (k_stream k)) (k_chrome k).
+  cevs_eqb (chrome_events (k_tasks k) (k_stream k)) (k_chrome k)
+  && opts_eqb (chrome_args k) (k_chrome_args k).
 
 (* the property, judged on what the implementation printed (reference aggregation only) *)
 Definition okc_graph (k : case) : bool := ok_graph_rows (k_tids k) (k_stream k) (k_graph k).
